@@ -138,12 +138,59 @@ def r2(F, R):
     def rec_ok(x, var, idx):
         """x = eval(<operand idx of self as var>, tags)"""
         return is_rec(x) and len(x[2]) == 2 and D.mentions(x[2][0], lambda y: y == ("field", ("as", me, var), idx)) and x[2][1] == tags_t
+    def operand_of(x, var):
+        return "L" if rec_ok(x, var, 0) else "R" if rec_ok(x, var, 1) else None
+
+    def value(t, var, env):
+        """Value of term t under the assignment env = {"L": bool, "R": bool}; None if it cannot be evaluated."""
+        if t == ("const", True) or t == ("const", False):
+            return t[1]
+        o = operand_of(t, var)
+        if o is not None:
+            return env[o]
+        if isinstance(t, tuple) and t and t[0] == "bin" and t[1] in ("BitAnd", "BitOr"):
+            a, c = value(t[2], var, env), value(t[3], var, env)
+            if a is None or c is None:
+                return None
+            return (a and c) if t[1] == "BitAnd" else (a or c)
+        if isinstance(t, tuple) and t and t[0] == "un" and t[1] == "Not":
+            a = value(t[2], var, env)
+            return None if a is None else (not a)
+        return None
     for var, op in (("And", "BitAnd"), ("Or", "BitOr")):
+        # truth table over the two recursive results L = self.0.eval(tags), R = self.1.eval(tags) — whatever the spelling
+        # (`l & r`, `l && r`, both computed first and then combined): on every row, for every assignment of L / R consistent with
+        # what the row learned, the returned value is L op R; every assignment is covered by some row
         ps = by.get(var, [])
-        ok = len(ps) == 1 and not ps[0].cut and ps[0].ret[0] == "bin" and ps[0].ret[1] == op and \
-            {0, 1} == {i for i in (0, 1) for x in (ps[0].ret[2], ps[0].ret[3]) if rec_ok(x, var, i)} and is_rec(ps[0].ret[2]) and is_rec(ps[0].ret[3])
-        R.check(ok, f"eval/{var}", b, f"{var}: l.eval(tags) {op} r.eval(tags)", f"TagOperation::{var} is evaluated as {D.fmt(b, ps[0].ret)[:120] if ps else 'nothing'}")
-        R.check(ok, f"eval/{var}-same-tags", b, "both operands over the same tags", f"{var}: operands are not evaluated over the same tags")
+        ok, why, covered = bool(ps), "", set()
+        for p in ps:
+            if p.cut:
+                ok, why = False, "a loop"
+                break
+            learned = {}
+            for a, o in p.conds:
+                w = operand_of(a, var)
+                if w is not None and isinstance(o, bool):
+                    learned[w] = o
+            for l_ in (True, False):
+                for r_ in (True, False):
+                    if learned.get("L", l_) != l_ or learned.get("R", r_) != r_:
+                        continue
+                    got = value(p.ret, var, {"L": l_, "R": r_})
+                    want = (l_ and r_) if var == "And" else (l_ or r_)
+                    if got is None:
+                        ok, why = False, f"it returns {D.fmt(b, p.ret)[:100]}"
+                    elif got != want:
+                        ok, why = False, f"with left = {l_}, right = {r_} it yields {got}"
+                    covered.add((l_, r_))
+        if ok and len(covered) != 4:
+            ok, why = False, f"only the cases {sorted(covered)} are handled"
+        # both operands are evaluated over the very tags given (an operand evaluated over something else is not recognised above)
+        seen_ops = {operand_of(x, var) for p in ps for t in ([p.ret] + [a for a, _ in p.conds] + [("call", e[1], e[2], e[4]) for e in p.effects if e[0] == "call"]) for x in D.subterms(t)} - {None}
+        any_rec = [x for p in ps for t in ([p.ret] + [a for a, _ in p.conds] + [("call", e[1], e[2], e[4]) for e in p.effects if e[0] == "call"]) for x in D.subterms(t) if is_rec(x)]
+        same = seen_ops == {"L", "R"} and all(operand_of(x, var) is not None for x in any_rec)
+        R.check(ok, f"eval/{var}", b, f"{var}: l.eval(tags) {op} r.eval(tags)", f"TagOperation::{var} is not `left {'and' if var == 'And' else 'or'} right`: {why}")
+        R.check(same, f"eval/{var}-same-tags", b, "both operands over the same tags", f"{var}: operands are not evaluated over the same tags")
     ps = by.get("Not", [])
     okn = len(ps) == 1 and not ps[0].cut and ps[0].ret[0] == "un" and ps[0].ret[1] == "Not" and rec_ok(ps[0].ret[2], "Not", 0)
     R.check(okn, "eval/Not", b, "Not: !inner.eval(tags)", f"TagOperation::Not is evaluated as {D.fmt(b, ps[0].ret)[:120] if ps else 'nothing'}")
